@@ -17,8 +17,10 @@ fn main() {
     let mut rep = Report::new();
     for_each_case(&path, "CASE", |c| {
         let spec = from_processor_case(&c);
-        let bytes = build(&spec);
+        let mut bytes = build(&spec);
         let exp = &c["exp"];
+        let stamp: u32 = match c["stamp"].as_str().unwrap_or("zero") { "some" => 1_700_000_000, "max" => u32::MAX, _ => 0 };
+        bytes[20..24].copy_from_slice(&stamp.to_le_bytes());     // MINIDUMP_HEADER.time_date_stamp
         rep.evaluations += 1;
         let res = guarded(|| {
             let dump = Minidump::read(&bytes[..]).map_err(|e| format!("read: {:?}", e))?;
@@ -82,6 +84,13 @@ fn main() {
         if fail.is_none() {
             let want = match exp["pid"].as_str().unwrap() { "misc" => Some(4242), "status" => Some(777), _ => None };
             if state.process_id != want { fail = Some(("process-id", json!({"expected": want, "observed": state.process_id}))); }
+        }
+        if fail.is_none() {
+            let secs = |t: std::time::SystemTime| t.duration_since(std::time::UNIX_EPOCH).map(|d| d.as_secs()).ok();
+            let want_ctime = if exp["ctime"] == "misc" { Some(1_600_000_000u64) } else { None };
+            let got_ctime = state.process_create_time.and_then(secs);
+            if state.process_create_time.is_some() != want_ctime.is_some() || got_ctime != want_ctime { fail = Some(("process-create-time", json!({"expected": want_ctime, "observed": got_ctime}))); }
+            else if secs(state.time) != Some(stamp as u64) { fail = Some(("dump-time", json!({"expected": stamp, "observed": secs(state.time)}))); }
         }
         if fail.is_none() {
             let mods: Vec<String> = state.modules.iter().map(|m| m.code_file().to_string()).collect();
